@@ -110,6 +110,8 @@ pub struct Config
     pub update_after_top: bool,
     /// Issue a final `Gc` + `Poll` at the end of every program.
     pub final_gc: bool,
+    /// Trigger entities prepared for auto-despawn at setup; the harness holds the only signal (`Op::DropSignal`).
+    pub auto_ents: Vec<EntId>,
 }
 
 pub fn no_ops() -> AlphabetFn { Arc::new(|_| Vec::new()) }
@@ -135,6 +137,7 @@ impl Config
             max_runs: 64,
             update_after_top: false,
             final_gc: false,
+            auto_ents: vec![],
         }
     }
 }
@@ -157,6 +160,7 @@ pub struct Ctx
     pub actors: Vec<ActorRt>,
     pub ents: Vec<Entity>,
     pub tokens: Vec<RevokeToken>,
+    pub signals: Vec<Option<bevy_cobweb::prelude::AutoDespawnSignal>>,
     pub next_payload: PayloadId,
     pub budget_left: u32,
     pub used_actors: u32,
@@ -214,6 +218,7 @@ impl Ctx
             actors: Vec::new(),
             ents: Vec::new(),
             tokens: Vec::new(),
+            signals: Vec::new(),
             next_payload: 0,
             budget_left,
             used_actors: 0,
